@@ -863,10 +863,6 @@ impl RustCodeGenerator {
                 out.push(c);
             }
         }
-        // the only keyword a variant can collide with
-        if out == "Self" {
-            out.push('_');
-        }
         out
     }
 
